@@ -745,14 +745,17 @@ impl Datamodel for ECMAScriptDatamodel {
                         }
                     }
                     _ => {
+                        // W3C: an illegal collection terminates the <foreach> and the block that contains it.
                         self.log("Resulting value is not a supported collection.");
                         self.internal_error_execution();
+                        return false;
                     }
                 }
                 true
             }
             Err(e) => {
                 self.log(&e.to_string());
+                self.internal_error_execution();
                 false
             }
         }
